@@ -1,4 +1,5 @@
 From Coq Require Import Extraction ExtrOcamlBasic.
-From RV Require Import Reopen.Model.
+From RV Require Import Reopen.Model Reopen.Snapshot.
 Extraction Language OCaml.
-Extraction "../ocaml/gen/c11_model.ml" open image_after_open primary check_integrity.
+Extraction "../ocaml/gen/c11_model.ml" open image_after_open primary check_integrity
+  xstep xinit open_path closed_image commit_flags flag_image trusted required.
